@@ -3,7 +3,7 @@
 From Coq Require Import List ZArith NArith Bool Lia.
 From RecordUpdate Require Import RecordSet.
 From PC.Base Require Import Assoc.
-From PC.Sup Require Import Model Monitors Check Tactics Sim ObsFacts Effects RelCore LemC02 RelC02t RelC02b RelC02c RelC02d RelC02f.
+From PC.Sup Require Import Model Monitors Check Tactics Sim ObsFacts Effects RelCore LemC02 RelC02defs RelC02f.
 Import ListNotations RecordSetNotations.
 
 (* the window hypothesis of the full theorem: F20/F21 (commit), F37 (sdlag), F25 (dup), F38 (zombie) *)
